@@ -60,8 +60,7 @@ def main():
             saved[prop] = open(ev).read()
         r = run_one(sid, tier)
         print(sid, 'DETECTED' if r.get('detected') else 'missed', r.get('error', ''), (r.get('violations') or [''])[0][:200], flush=True)
-    for prop, txt in saved.items():      # restore the evidence of the unchanged tree
-        open(os.path.join(VERIF, 'evidence', prop + '.json'), 'w').write(txt)
+    # (runs against a scratch copy no longer write evidence/: nothing to restore)
     rows = []
     for sid in sorted(os.path.basename(p) for p in glob.glob(os.path.join(VERIF, 'seeded', 'C*-*'))):
         f = os.path.join(VERIF, 'seeded', sid, 'detection.json')
